@@ -1,3 +1,4 @@
 pub mod prog;
 pub mod refint;
 pub mod textgen;
+pub mod sumgen;
